@@ -199,6 +199,15 @@ def job_id(job):
     return m.group(1)
 
 
+def _child_limits():
+    """deep (non-tail) recursion of the extracted model over long wire lists needs a large stack"""
+    import resource
+    try:
+        resource.setrlimit(resource.RLIMIT_STACK, (resource.RLIM_INFINITY, resource.RLIM_INFINITY))
+    except (ValueError, OSError):
+        pass
+
+
 def _run_shard(exe, jobs, tag, timeout_per_job, base_timeout):
     """Runs `exe` over jobs; a job that kills the process or exceeds the deadline is reported
     as (abort ..)/(timeout) and the remaining jobs are run in a fresh process."""
@@ -217,7 +226,7 @@ def _run_shard(exe, jobs, tag, timeout_per_job, base_timeout):
         status = None
         try:
             p = subprocess.run([exe, jf, rf], env=ENV, timeout=to, stdout=subprocess.PIPE,
-                               stderr=subprocess.PIPE)
+                               stderr=subprocess.PIPE, preexec_fn=_child_limits)
             if p.returncode != 0:
                 status = f"(abort {p.returncode})"
         except subprocess.TimeoutExpired:
@@ -260,7 +269,7 @@ def _run_single(exe, job, tag, timeout):
         os.remove(rf)
     try:
         p = subprocess.run([exe, jf, rf], env=ENV, timeout=timeout, stdout=subprocess.PIPE,
-                           stderr=subprocess.PIPE)
+                           stderr=subprocess.PIPE, preexec_fn=_child_limits)
         got = parse_results(open(rf, errors="replace").read()) if os.path.exists(rf) else {}
         if job_id(job) in got:
             return got[job_id(job)]
